@@ -509,7 +509,7 @@ func (g *gen) stmt(depth int) []*Stmt {
 			s.HasEl = true
 			s.Else = g.stmts(1+g.rng.IntN(2), depth-1)
 		}
-		if g.inFor > 0 && g.rng.IntN(6) == 0 {
+		if g.inFor > 0 && g.rng.IntN(3) == 0 {
 			s.Body = append(s.Body, &Stmt{Kind: []string{"break", "continue"}[g.rng.IntN(2)]})
 		}
 		return []*Stmt{s}
@@ -535,7 +535,12 @@ func (g *gen) stmt(depth int) []*Stmt {
 			fv := &Expr{Kind: "var", Name: f}
 			loop := &Stmt{Kind: "for", Init: &Stmt{Kind: "assign", Name: c, E: &Expr{Kind: "lit", Val: 0}}, Post: &Stmt{Kind: "inc", Name: c},
 				E: fv, E2: &Expr{Kind: "lit", Val: 0}}
-			loop.Body = append([]*Stmt{{Kind: "if", E: cv, E2: &Expr{Kind: "lit", Val: n - 1}, Body: []*Stmt{{Kind: "assign", Name: f, E: &Expr{Kind: "lit", Val: 1}}}}}, body...)
+			loop.Body = []*Stmt{{Kind: "if", E: cv, E2: &Expr{Kind: "lit", Val: n - 1}, Body: []*Stmt{{Kind: "assign", Name: f, E: &Expr{Kind: "lit", Val: 1}}}}}
+			if g.rng.IntN(2) == 0 {
+				// one iteration skips the rest of the body: the post statement must still run
+				loop.Body = append(loop.Body, &Stmt{Kind: "if", E: cv, E2: &Expr{Kind: "lit", Val: uint64(g.rng.IntN(int(n)))}, Body: []*Stmt{{Kind: "continue"}}})
+			}
+			loop.Body = append(loop.Body, body...)
 			return []*Stmt{{Kind: "assign", Name: f, E: &Expr{Kind: "lit", Val: 0}}, loop}
 		default: // c = n; for c == n { body; c++ }  (one iteration, condition-only form)
 			loop := &Stmt{Kind: "for", E: cv, E2: &Expr{Kind: "lit", Val: n}}
